@@ -77,6 +77,7 @@ func i64(v int64) *int64 { return &v }
 
 func main() {
 	run := vr.New("C11", "model_checking")
+	defer run.Recover()
 	run.Rule("histories with k salt rotations (fixed by the scenario: the salt changes just before the n-th frame; or free: a server event the explorer places) x n pending requests x all schedules and server answer orders within delay bound D and server-deviation bound E; oracle on every complete execution; non-trivial = at least one frame was rejected for a stale salt")
 	run.Assume("F scenarios run the real key exchange against reference server R3 first (owned random stream), one delay bound lower because each execution repeats the exchange",
 		"a stall is decided structurally: a thread parked forever on a channel operation at quiescence")
